@@ -84,8 +84,10 @@ def f32bits(v):
 
 def main():
   rep = vlib.Report(PROP, "proof")
-  info = vlib.build_obligations(PROP)
-  errs = rep.obligations(info, "coqc -Q coq/theories QV coq/theories/Properties/C07.v")
+  from translate import schedgen
+  gen = schedgen.emit(vlib.GEN)
+  info = vlib.build_obligations(PROP, gen_files=[gen], extra_files=[os.path.join(vlib.COQ, "theories", "Link", "SchedLink.v")])
+  errs = rep.obligations(info, "python3 tools/translate/schedgen.py coq/gen && coqc coq/gen/SchedGen.v && coqc coq/theories/Link/SchedLink.v && coqc coq/theories/Properties/C07.v")
   for e in errs:
     rep.violation("obligation-" + os.path.basename(e["file"]), "proof obligation no longer checks: " + e["error"][-400:],
                   {"file": e["file"]}, no_input=True)
